@@ -44,7 +44,7 @@ RULE = ("ALL 380 ordered pairs of distinct catalogue types on one indexed column
         "type family, type arguments, server default added/removed/changed, foreign key added/dropped/changed, constraint/index added, "
         "dropped, columns changed, unique flag flipped, kind swapped, renamed), pairs violating 'no dropped table still referenced' "
         "re-drawn; each pair is run under the 4 compare_type x compare_server_default settings, each with render_as_batch False and True "
-        "(rendered, executed, reflected, compared again). When finding C06-sqlite-string-default-not-quiet is registered, 4 witness "
+        "(rendered, executed, reflected, compared again). Every fourth random pair (and 4 fixed ones) gives some string columns a collation (String(n, collation='NOCASE')): decoration outside the model that SQLite does not reflect and the comparison must not report. When finding C06-sqlite-string-default-not-quiet is registered, 4 witness "
         "cases of the refuted class are added. non-trivial = the first comparison db(A) vs B yields at least one operation; distinct "
         "by the encoded pair")
 EXHAUSTIVE = {"quick": False, "thorough": False}
@@ -85,8 +85,19 @@ def generate(tier, seed):
                     if dt: c[1], c[2] = f2, list(a2)
                     if dd: c[5] = ["expr", "'x'"]
                     yield {"A": A, "B": B, "desc": ["combo_alter"]}
-    for _ in range(n):
+    # decoration the comparison must not see: string columns with a collation (SQLite reflects the bare type)
+    for fam, a in [(3, []), (3, [20]), (3, [50]), (4, [])]:
+        A = [{"name": 0, "cols": [[0, 0, [], False, True, None], [1, fam, list(a), True, False, None], [2, 0, [], True, False, None]],
+              "cons": [["ix", 0, [1], False]], "fks": [], "deco": {"collate": [1]}}]
+        B = copy.deepcopy(A)
+        B[0]["cols"].append([3, 3, [20], True, False, None])
+        B[0]["deco"] = {"collate": [1, 3]}
+        yield {"A": A, "B": B, "desc": ["collation"]}
+    crnd = random.Random(seed * 65537 + 6)
+    for k in range(n):
         A, B, desc = S.gen_pair(rnd)
+        if k % 4 == 1:
+            S.add_collations(crnd, [A, B])
         yield {"A": A, "B": B, "desc": desc}
     if _finding_registered():
         yield from _witnesses()
@@ -177,6 +188,40 @@ def run_case(h):
     plain_fail = any("notrun" in r["plain"] for r in runs_out)
     shape = "ops%s-%s" % ("0" if nops == 0 else "1-3" if nops <= 3 else "4+", "plainfail" if plain_fail else "plainok")
     return dict(cin=cin, cout=cout, out=out, nontrivial=nontrivial, shape=shape)
+
+
+def _q_res(r):
+    return "NotRun" if "notrun" in r else "(Applied %s %s)" % (S.q_schema(r["post"]), S.q_ops(r["second"]))
+
+
+def _q_out(refl, runs):
+    return "(mkOut %s %s)" % (S.q_schema(refl), cf.lst(
+        "(mkRun %s %s %s %s %s)" % (S.q_cfg(tuple(r["cfg"])), S.q_ops(r["quiet"]), S.q_ops(r["ops"]), _q_res(r["plain"]), _q_res(r["batch"]))
+        for r in runs))
+
+
+def canary(human, rec):
+    """corrupted observations the decider must reject: an operation reported on the matching database, an operation left after
+    the batch / plain upgrade was applied, the batch upgrade not run at all, one compare setting missing"""
+    out = rec.get("out") or {}
+    runs = out.get("runs")
+    if not runs:
+        return []
+    import copy
+    stray = ["drop_table", 9999]
+    bad = []
+
+    def variant(edit):
+        rs = copy.deepcopy(runs)
+        if edit(rs) is not False:
+            bad.append(_q_out(out["reflected"], rs))
+
+    variant(lambda rs: rs[0]["quiet"].append(stray))
+    variant(lambda rs: rs[-1]["batch"]["second"].append(stray) if "second" in rs[-1]["batch"] else False)
+    variant(lambda rs: rs[1]["plain"]["second"].append(stray) if "second" in rs[1]["plain"] else False)
+    variant(lambda rs: rs[2].__setitem__("batch", {"notrun": "canary"}))
+    variant(lambda rs: rs.pop())
+    return bad
 
 
 def _bad_default(d):
